@@ -64,7 +64,7 @@ func (n *Node) isLastOfHierarchy() bool {
 	}
 
 	lastIdx := len(n.parent.children) - 1
-	return n.index == n.parent.children[lastIdx].index
+	return n == n.parent.children[lastIdx]
 }
 
 const (
